@@ -1,5 +1,6 @@
 import Driver.C01
 import Driver.TabD
+import Driver.VisD
 open Drv Lean
 
 def genFor (prop tier : String) (seed : Nat) : Except String (Array Case) :=
@@ -8,6 +9,7 @@ def genFor (prop tier : String) (seed : Nat) : Except String (Array Case) :=
   | "C02" => pure (genC02Cases tier seed)
   | "C03" => pure (genC03Cases tier seed)
   | "C04" => pure (genTabCases tier seed "c04")
+  | "C08" => pure (genVisCases tier seed "c08")
   | _ => throw s!"no generator for {prop}"
 
 def judgeFor (prop : String) : Except String (Case → ObsLine → Verdict) :=
@@ -16,6 +18,7 @@ def judgeFor (prop : String) : Except String (Case → ObsLine → Verdict) :=
   | "C02" => pure judgeParse
   | "C03" => pure judgeParse
   | "C04" => pure (judgeTab false)
+  | "C08" => pure (judgeVis true)
   | _ => throw s!"no judge for {prop}"
 
 def main (args : List String) : IO UInt32 := do
